@@ -33,6 +33,7 @@ type Event struct {
 	Site   string
 	Aux    []*Event
 	PVal   Value    // pstore: the (concrete-shaped) value stored into a tracked plain location
+	PHeap  map[int]Value // pstore: the objects reachable from PVal as they were at the store (imported by readers that lack them)
 	Ident  string   // pstore: pass-independent identity (thread name | site | occurrence)
 	CandID []string // pload: identities of the stores this load may read from ("" = the location's initial zero value)
 }
@@ -41,6 +42,64 @@ type Event struct {
 type storeRec struct {
 	ident, loc string
 	val        Value
+	heap       map[int]Value
+}
+
+// reachObjs collects the heap objects reachable from a value.
+func reachObjs(v Value, heap map[int]Value, out map[int]Value) {
+	obj := func(id int) {
+		if id == 0 {
+			return
+		}
+		if _, seen := out[id]; seen {
+			return
+		}
+		c, ok := heap[id]
+		if !ok {
+			return
+		}
+		out[id] = c
+		reachObjs(c, heap, out)
+	}
+	switch x := v.(type) {
+	case Ptr:
+		obj(x.Obj)
+	case Slice:
+		obj(x.Arr)
+	case MapRef:
+		obj(x.Obj)
+	case *Struct:
+		if x != nil {
+			for _, f := range x.F {
+				reachObjs(f, heap, out)
+			}
+		}
+	case Struct:
+		for _, f := range x.F {
+			reachObjs(f, heap, out)
+		}
+	case Iface:
+		reachObjs(x.V, heap, out)
+	case *Func:
+		if x != nil {
+			for _, f := range x.Free {
+				reachObjs(f, heap, out)
+			}
+			reachObjs(x.Bound, heap, out)
+		}
+	case *MapData:
+		if x != nil {
+			for i := range x.Keys {
+				reachObjs(x.Keys[i], heap, out)
+				reachObjs(x.Vals[i], heap, out)
+			}
+		}
+	case MapData:
+		for i := range x.Keys {
+			reachObjs(x.Keys[i], heap, out)
+			reachObjs(x.Vals[i], heap, out)
+		}
+	}
 }
 
 type ThreadRec struct {
@@ -717,6 +776,8 @@ func (c *ConcCtx) sharedStore(e *Exec, st *State, p Ptr, v Value, site string) b
 		}
 		ev := c.emit(st, "pstore", "p:"+locKey(p), site)
 		ev.PVal = v
+		ev.PHeap = map[int]Value{}
+		reachObjs(v, st.Heap, ev.PHeap)
 		ev.Ident = fmt.Sprintf("%s|%s|%d", st.Thread.rec.stable, site, st.Thread.bump("pstore@"+site))
 		return false
 	}
@@ -783,26 +844,38 @@ func (c *ConcCtx) sharedLoad(e *Exec, st *State, p Ptr, t types.Type, site strin
 	loc := "p:" + locKey(p)
 	ids := []string{""}
 	vals := []Value{e.zero(t)}
+	heaps := []map[int]Value{nil}
 	seen := map[string]bool{}
-	addC := func(id string, v Value) {
+	addC := func(id string, v Value, h map[int]Value) {
 		if !seen[id] {
 			seen[id] = true
 			ids = append(ids, id)
 			vals = append(vals, v)
+			heaps = append(heaps, h)
 		}
 	}
 	ownPrefix := st.Thread.rec.stable + "|"
 	pcset := map[*Term]bool{}
-	for _, t := range st.PC {
+	var addPC func(t *Term)
+	addPC = func(t *Term) {
 		pcset[t] = true
+		if t.Op == "and" {
+			for _, a := range t.Args {
+				addPC(a)
+			}
+		}
 	}
-	holds := func(g *Term) bool { // the guard of an own earlier event certainly holds on this path
+	for _, t := range st.PC {
+		addPC(t)
+	}
+	var holds func(g *Term) bool // the guard of an own earlier event certainly holds on this path
+	holds = func(g *Term) bool {
 		if g.IsTrue() || pcset[g] {
 			return true
 		}
 		if g.Op == "and" {
 			for _, a := range g.Args {
-				if !pcset[a] {
+				if !holds(a) {
 					return false
 				}
 			}
@@ -814,19 +887,19 @@ func (c *ConcCtx) sharedLoad(e *Exec, st *State, p Ptr, t types.Type, site strin
 		if ev.Kind == "pstore" && ev.Loc == loc {
 			if holds(ev.Guard) {
 				// this own store certainly precedes the load: the initial value and earlier own stores are overwritten
-				ids, vals, seen = nil, nil, map[string]bool{}
+				ids, vals, heaps, seen = nil, nil, nil, map[string]bool{}
 			}
-			addC(ev.Ident, ev.PVal)
+			addC(ev.Ident, ev.PVal, nil)
 		}
 	}
 	for _, ev := range c.events {
 		if ev.Kind == "pstore" && ev.Loc == loc && ev.Thread != st.Thread.rec.id {
-			addC(ev.Ident, ev.PVal)
+			addC(ev.Ident, ev.PVal, ev.PHeap)
 		}
 	}
 	for _, r := range prevStores[loc] {
 		if !strings.HasPrefix(r.ident, ownPrefix) {
-			addC(r.ident, r.val)
+			addC(r.ident, r.val, r.heap)
 		}
 	}
 	r := c.emit(st, "pload", loc, site)
@@ -842,6 +915,12 @@ func (c *ConcCtx) sharedLoad(e *Exec, st *State, p Ptr, t types.Type, site strin
 			s = st.Clone()
 		}
 		s.Assume(Eq(r.Val, IntConst(int64(k))))
+		for id, content := range heaps[k] {
+			// objects the storing thread created after this thread's snapshot: imported as they were at the store
+			if _, ok := s.Heap[id]; !ok {
+				s.Heap[id] = content
+			}
+		}
 		bind(s, vals[k])
 		out = append(out, s)
 	}
@@ -932,7 +1011,7 @@ func (c *ConcCtx) rememberStores() {
 	prevStores = map[string][]storeRec{}
 	for _, w := range c.events {
 		if w.Kind == "pstore" {
-			prevStores[w.Loc] = append(prevStores[w.Loc], storeRec{w.Ident, w.Loc, w.PVal})
+			prevStores[w.Loc] = append(prevStores[w.Loc], storeRec{w.Ident, w.Loc, w.PVal, w.PHeap})
 		}
 	}
 }
